@@ -663,7 +663,14 @@ func (g *Gen) constVal(c *ssa.Const) Val {
 				return Val{Sort: "Err", Term: "Err_nil", GoT: t}
 			}
 			return Val{Sort: "Iface", Term: "Iface_nil", GoT: t}
-		case *types.Slice, *types.Map, *types.Struct, *types.Basic, *types.Array:
+		case *types.Slice:
+			if g.sorts.sortOf(t) == "Str" {
+				// nil []byte is distinguishable from every stored value (KVStore.Get returns nil for an absent key)
+				g.useTheory("kv")
+				return Val{Sort: "Str", Term: "Bytes_nil", GoT: t}
+			}
+			return g.zeroVal(t)
+		case *types.Map, *types.Struct, *types.Basic, *types.Array:
 			_ = u
 			return g.zeroVal(t)
 		case *types.Signature:
